@@ -229,8 +229,12 @@ def design(ctx):
         raise Broken("vacuity gate: actions never taken in the design run: %s" % acts)
     # negative controls: with a repair flag off (= what the code does) TLC must find the corresponding counterexample
     neg = {}
-    for name, want in (("MCDurability_code.cfg", None), ("MCDurability_noTornTail.cfg", "Opens"), ("MCDurability_noAtomicCtx.cfg", "Opens"),
-                       ("MCDurability_noScanPromotes.cfg", None)):
+    for name, want in (("MCDurability_code.cfg", None),                       # everything the code does: some clause fails
+                       ("MCDurability_noTornTail.cfg", "Opens"),              # Dev_TornWalTailPanics
+                       ("MCDurability_noTornTailZero.cfg", "AccountsExact"),  # Dev_TornWalRecordAccepted
+                       ("MCDurability_noAtomicCtx.cfg", "Opens"),             # Dev_TornContextPanics
+                       ("MCDurability_noScanPromotes.cfg", "AccountsExact"),  # Dev_BatchAheadOfStablePointer
+                       ("MCDurability_noScanPromotesCtx.cfg", "ContextFresh")):  # Dev_StaleCandidatesAfterCrash
         n = ctx.tlc("MCDurability", name, timeout=600, expect_ok=False)
         neg[name] = n["inv"]
         if not n["inv"]:
